@@ -254,6 +254,8 @@ class Impl:
     def op_fn_psd(self, f, n, *cells): self.o[f].add_psd_matrix(self._mat(n, cells)); return "ok"
     def op_pep_addcons(self, c): self.pep.add_constraint(self.o[c]); return "ok"
     def op_pep_metric(self, e): self.pep.set_performance_metric(self.o[e]); return "ok"
+    def op_pep_setmetrics(self, *es): self.pep.list_of_performance_metrics = [self.o[e] for e in es]; return "ok"   # the idiom the test-suite uses to replace the metrics
+    def op_fn_setname(self, f, name): self.o[f].set_name(name); return "ok"
     def op_pep_psd(self, n, *cells): self.pep.add_psd_matrix(self._mat(n, cells)); return "ok"
     def op_part_decl(self, n, d): self.o[n] = self.pep.declare_block_partition(d=int(d)); return "ok"
     def op_part_new(self, n, d):
@@ -505,6 +507,12 @@ from ocommon import CLASSES
 W = ["1", "2", "-1", "1/2", "4", "-2", "0", "1/4", "-1/2", "8", "1/8"]      # powers of two: products AND quotients stay exact in floating point (a 1e-17 residue of 1/3 or of 1/(3/4) changes which terms exist)
 
 
+def det_choice(seed, tag, n):
+    """a choice in range(n) derived from (seed, tag) without consuming the program's random stream"""
+    import zlib
+    return zlib.crc32(("%s/%s" % (seed, tag)).encode()) % n
+
+
 class Prog:
     def __init__(self, rnd):
         self.rnd = rnd; self.lines = ["reset"]; self.np = 0; self.ne = 0; self.nc = 0; self.nf = 0; self.nb = 0
@@ -604,6 +612,13 @@ def gen_collect(seed):
         p.decl(cls)
     if nb and rnd.random() < .4: p.decl("BlockSmoothConvexFunction", partition=("b1", d_))
     leaves = list(p.F)
+    if det_choice(seed, "fnames", 4) == 0:
+        # the user names the functions — distinct names, or (one time in two, when there are two) the SAME name for two leaf
+        # functions: a name is a label, every function keeps its own class constraints whatever the labels
+        same = det_choice(seed, "samename", 2) == 0 and len(leaves) >= 2
+        for i_, f_ in enumerate(leaves):
+            if p.fcls.get(f_) in ("LinearOperator", "BlockSmoothConvexFunction"): continue
+            p.emit("fn.setname %s %s" % (f_, "obj" if same and i_ < 2 else "fun%d" % i_))
     for _ in range(rnd.randint(0, 2)):
         a, b = rnd.choice(p.F), rnd.choice(p.F); n = p.newf(); p.emit("fn.lin %s %s %s %s %s" % (n, rnd.choice(W), a, rnd.choice(W), b))
     for _ in range(rnd.randint(2, 8)):
@@ -655,6 +670,15 @@ def gen_collect(seed):
         cells = [(rnd.choice(["#1", "#0", "#2", "#-1/2"]) if rnd.random() < .3 else expr()) for _ in range(4)]
         nm = "ma%d" % len(p.lines); p.emit("psd.new %s 2 %s" % (nm, " ".join(cells)))
         p.emit("pep.addpsd %s" % nm if rnd.random() < .6 else "fn.addpsd %s %s" % (rnd.choice(p.F), nm))
+    if det_choice(seed, "lmi3", 4) == 0:
+        # a 3 x 3 LMI whose mirrored entries are PARTLY the same object (the two shared off-diagonal expressions) and partly
+        # distinct objects (the scalar entries become one constant expression each): every entry is coupled, every multiplier
+        # is routed by position
+        a_, t_, s_ = expr(), expr(), expr()
+        nm = "mb%d" % len(p.lines); p.emit("psd.new %s 3 %s %s %s %s #1 #0 %s #0 #1" % (nm, a_, t_, s_, t_, s_))
+        p.emit("pep.addpsd %s" % nm if det_choice(seed, "lmi3where", 2) == 0 else "fn.addpsd %s %s" % (leaves[0], nm))
+        e = expr(); c = p.newc(); p.emit("cons.lec %s %s 1" % (c, e)); p.emit("pep.addcons %s" % c)      # a constraint sent AFTER... (function constraints are)
+        e = expr(); c = p.newc(); p.emit("cons.gec %s %s 1/4" % (c, e)); p.emit("fn.addcons %s %s" % (leaves[0], c))
     for _ in range(rnd.randint(1, 2)): p.emit("pep.metric %s" % expr())
     p.emit("solve.collect"); p.emit("dump.sent"); p.emit("dump.counters")
     p.emit("dump.cvx %d" % rnd.randint(0, 10 ** 6))
@@ -669,6 +693,10 @@ def gen_collect(seed):
         if rnd.random() < .3: p.sample_ops(rnd.choice(leaves), 1)
         if rnd.random() < .3: p.setparam(rnd.choice(leaves))
         if rnd.random() < .4: p.emit("pep.metric %s" % expr())          # one more performance metric before solving again
+        if det_choice(seed, "setmetrics", 3) == 0:
+            # the list of metrics is REPLACED (fewer, other, reordered metrics): the second solve must maximise the minimum of
+            # the current ones only (decided without a random draw: the other choices of the program stay what they were)
+            p.emit("pep.setmetrics %s" % " ".join(expr() for _ in range(1 + det_choice(seed, "nmetrics", 2))))
         if rnd.random() < .3:
             e = expr(); c = p.newc(); p.emit("cons.lec %s %s 1" % (c, e)); p.emit("pep.addcons %s" % c)
         if nb and rnd.random() < .3:
